@@ -167,29 +167,29 @@ func errClass(err error) string {
 // ---------------------------------------------------------------- objects
 
 type object struct {
-	key      string // "kv:k12"
-	typ      string
-	budget   int
-	issued   int
-	unknown  int
-	nhincr   int
-	retired  bool
+	key     string // "kv:k12"
+	typ     string
+	budget  int
+	issued  int
+	unknown int
+	nhincr  int
+	retired bool
 }
 
 type workload struct {
-	mu       sync.Mutex
-	rng      *rand.Rand
-	active   []*object
-	all      []*object
-	gen      int
-	nextVal  int64
-	maxUnk   int
-	minB     int
-	maxB     int
-	recs     []opRec
-	dropped  map[string]int // error class -> count, reads that failed (no effect, not recorded)
-	errs     map[string]int // error class -> count, writes with unknown outcome
-	stop     int32
+	mu         sync.Mutex
+	rng        *rand.Rand
+	active     []*object
+	all        []*object
+	gen        int
+	nextVal    int64
+	maxUnk     int
+	minB       int
+	maxB       int
+	recs       []opRec
+	dropped    map[string]int // error class -> count, reads that failed (no effect, not recorded)
+	errs       map[string]int // error class -> count, writes with unknown outcome
+	stop       int32
 	leaderHint int32
 }
 
